@@ -91,7 +91,8 @@ type c03Case struct {
 	// reassigned, auto-moved, auth-changed (dev1 was synchronised first with
 	// authentication off, then with the policy of the case), keys-removed
 	// (dev1 keeps its profile but loses its linked IP and its dedicated IPs,
-	// auto1 keeps its profile but loses its human id).
+	// auto1 keeps its profile but loses its human id), auto-detached (prof1
+	// does not list its human-id device auto1 any more).
 	DB string `json:"db"`
 
 	// Auto tells whether prof1 has automatic devices enabled.
@@ -125,12 +126,14 @@ const (
 
 	c03LinkedDev1  = "192.0.2.10"
 	c03LinkedDev1B = "192.0.2.11"
+	c03LinkedAuto1 = "192.0.2.30"
 	c03LinkedDev2  = "192.0.2.20"
 	c03RemoteOther = "192.0.2.99"
 
 	c03SrvAddr       = "198.51.100.1"
 	c03DedicatedDev1 = "198.51.100.9"
 	c03DedicatedNone = "198.51.100.10"
+	c03DedicatedAuto = "198.51.100.11"
 
 	c03CPE = 65074
 )
@@ -165,8 +168,8 @@ func c03NewWorld(c c03Case, created []c03Created) (w *c03World) {
 		auth:      map[string]string{c03Dev1: c.Auth, c03Auto1: "off", c03Dev2: "on", c03Dev3: "off"},
 		pw:        map[string]string{c03Dev1: c03PW1, c03Dev2: c03PW2},
 		human:     map[string]string{c03Auto1: c03HumanAuto1},
-		linked:    map[string]string{c03Dev1: c03LinkedDev1, c03Dev2: c03LinkedDev2},
-		dedicated: map[string]string{c03Dev1: c03DedicatedDev1},
+		linked:    map[string]string{c03Dev1: c03LinkedDev1, c03Dev2: c03LinkedDev2, c03Auto1: c03LinkedAuto1},
+		dedicated: map[string]string{c03Dev1: c03DedicatedDev1, c03Auto1: c03DedicatedAuto},
 	}
 	switch c.DB {
 	case "deleted", "deleted-nodevs":
@@ -181,6 +184,8 @@ func c03NewWorld(c c03Case, created []c03Created) (w *c03World) {
 		w.owner[c03Dev1] = c03Prof2
 	case "auto-moved":
 		w.owner[c03Auto1] = c03Prof2
+	case "auto-detached":
+		delete(w.owner, c03Auto1)
 	case "auth-changed":
 		// The latest synchronised policy is the one of the case.
 	case "keys-removed":
@@ -631,7 +636,8 @@ func (s *c03Storage) CreateAutoDevice(
 	req *profiledb.StorageCreateAutoDeviceRequest,
 ) (resp *profiledb.StorageCreateAutoDeviceResponse, err error) {
 	low := strings.ToLower(string(req.HumanID))
-	s.created = append(s.created, c03Created{ID: c03AutoNew, Profile: string(req.ProfileID), Human: low})
+	id := c03CreatedID(low)
+	s.created = append(s.created, c03Created{ID: id, Profile: string(req.ProfileID), Human: low})
 
 	// The backend call is where a request that creates a device waits.
 	xsched.Yield("storage.CreateAutoDevice")
@@ -639,7 +645,7 @@ func (s *c03Storage) CreateAutoDevice(
 	return &profiledb.StorageCreateAutoDeviceResponse{
 		Device: &agd.Device{
 			Auth:             &agd.AuthSettings{Enabled: false, PasswordHash: agdpasswd.AllowAuthenticator{}},
-			ID:               c03AutoNew,
+			ID:               agd.DeviceID(id),
 			Name:             agd.DeviceName(req.HumanID),
 			HumanIDLower:     agd.HumanIDLower(low),
 			FilteringEnabled: true,
@@ -665,6 +671,20 @@ func c03StateOf(ctx context.Context) (rs *c03ReqState) {
 	}
 
 	return rs
+}
+
+// c03CreatedID is the id the scripted backend gives to the automatic device
+// it creates for the lower-case human id low: "newphone" gets c03AutoNew.
+func c03CreatedID(low string) (id string) {
+	if low == "newphone" {
+		return c03AutoNew
+	}
+	low = strings.ReplaceAll(low, "-", "")
+	if len(low) > 6 {
+		low = low[:6]
+	}
+
+	return "a" + low
 }
 
 // c03Finder records the result of the real finder for the request.
@@ -794,8 +814,10 @@ func c03NewDB(c c03Case) (db *profiledb.Default, st *c03Storage) {
 	auto1 := &agd.Device{
 		Auth:             c03Auth("off", ""),
 		ID:               c03Auto1,
+		LinkedIP:         netip.MustParseAddr(c03LinkedAuto1),
 		Name:             "MyPhone",
 		HumanIDLower:     c03HumanAuto1,
+		DedicatedIPs:     []netip.Addr{netip.MustParseAddr(c03DedicatedAuto)},
 		FilteringEnabled: true,
 	}
 	dev2 := &agd.Device{
@@ -859,6 +881,8 @@ func c03NewDB(c c03Case) (db *profiledb.Default, st *c03Storage) {
 			dev3b.LinkedIP = netip.MustParseAddr(c03LinkedDev1)
 			part.Devices = append(part.Devices, &dev3b)
 		}
+	case "auto-detached":
+		part.Profiles = []*agd.Profile{c03Profile(c03Prof1, []agd.DeviceID{c03Dev1}, false, c.Auto)}
 	case "keys-removed":
 		dev1b, auto1b := *dev1, *auto1
 		dev1b.LinkedIP, dev1b.DedicatedIPs = netip.Addr{}, nil
@@ -1243,6 +1267,7 @@ var (
 		"/x/dev1",
 		"/y/dev1",
 		"/dns-query/otr-prof1-MyPhone",
+		"/dns-query/auto1",
 		// thorough only
 		"/dns-query/DEV1",
 		"/dns-query/otr-prof1-NewPhone",
@@ -1263,6 +1288,7 @@ var (
 		{2, c03Dev3, "any"},
 		{2, "bad id!", "x"},
 		// thorough only
+		{2, c03Auto1, "any"},
 		{2, c03Dev2, c03PW2},
 		{2, "DEV1", c03PW1},
 		{2, "nosuch", c03PW1},
@@ -1276,6 +1302,7 @@ var (
 		"dev1xd.test",
 		"a.dev1.d.test",
 		"dev1.other.test",
+		"auto1.d.test",
 		// thorough only
 		"DEV1.D.Test",
 		"d.test",
@@ -1292,6 +1319,7 @@ var (
 		{"65074:bad id!"},
 		{"1234:dev1"},
 		{"1234:zz", "65074:dev1"},
+		{"65074:auto1"},
 		// thorough only
 		{"65074:dev2"},
 		{"65074:DEV1"},
@@ -1299,11 +1327,11 @@ var (
 		{"65074:nosuch"},
 		{"65074:"},
 	}
-	c03Raddrs  = []string{c03LinkedDev1 + ":12345", c03RemoteOther + ":12345", c03LinkedDev2 + ":12345", c03LinkedDev1B + ":12345"}
-	c03Laddrs  = []string{c03SrvAddr + ":53", c03DedicatedDev1 + ":53", c03DedicatedNone + ":53"}
+	c03Raddrs  = []string{c03LinkedDev1 + ":12345", c03RemoteOther + ":12345", c03LinkedDev2 + ":12345", c03LinkedDev1B + ":12345", c03LinkedAuto1 + ":12345"}
+	c03Laddrs  = []string{c03SrvAddr + ":53", c03DedicatedDev1 + ":53", c03DedicatedNone + ":53", c03DedicatedAuto + ":53"}
 	c03Domains = [][]string{nil, {"d.test"}, {"x.test", "d.test"}}
 	c03Auths   = []string{"off", "on", "doh-only"}
-	c03DBs     = []string{"normal", "deleted", "detached", "readdressed", "auto-moved", "keys-removed", "moved", "deleted-nodevs", "noprofile", "reassigned", "auth-changed"}
+	c03DBs     = []string{"normal", "deleted", "detached", "readdressed", "auto-moved", "keys-removed", "auto-detached", "moved", "deleted-nodevs", "noprofile", "reassigned", "auth-changed"}
 	c03Bools   = []bool{false, true}
 )
 
@@ -1438,7 +1466,7 @@ func c03GenPlain(d c03Dims, emit func(c03Case)) {
 // case: the data was synchronised.
 func c03GenCacheFail(emit func(c03Case)) {
 	for _, after := range []int{0, 1, 2} {
-		for _, db := range []string{"deleted", "detached", "moved", "readdressed", "reassigned", "auto-moved", "auth-changed", "keys-removed"} {
+		for _, db := range []string{"deleted", "detached", "moved", "readdressed", "reassigned", "auto-moved", "auth-changed", "keys-removed", "auto-detached"} {
 			for _, auth := range c03Auths {
 				for _, proto := range []string{"doh", "dot", "doq", "dns", "dnscrypt"} {
 					cfg := c03Case{
@@ -1464,7 +1492,7 @@ func TestVerifC03(t *testing.T) {
 	r := vrt.Start("C03")
 	c03Messages = agdtest.NewConstructor(t)
 
-	q := c03Dims{paths: 10, uis: 8, snis: 6, opts: 7, raddrs: 2, laddrs: 3, domains: 2, dbs: 6, autos: 1}
+	q := c03Dims{paths: 11, uis: 8, snis: 7, opts: 8, raddrs: 2, laddrs: 3, domains: 2, dbs: 7, autos: 1}
 	th := c03Dims{
 		paths: len(c03Paths), uis: len(c03UIs), snis: len(c03SNIs), opts: len(c03Opts),
 		raddrs: len(c03Raddrs), laddrs: len(c03Laddrs), domains: len(c03Domains), dbs: len(c03DBs), autos: 2,
